@@ -99,4 +99,10 @@ TEXT = {
         "design_ref": "DESIGN.md section 5, C16",
         "level_note": 'trusted: the controller (harness/src/sched.rs) and the hook wrappers in the crate (they delegate to the real std Mutex/AtomicUsize). A schedule is decided by logical steps; the only wall-clock element is a 60 s no-progress guard.',
     },
+    "C17": {
+        "technique": "runtime monitor: reference reverse-walk resolver with hard-coded identifier tables vs get_original_function_name on SourceMap / single-section index / DecodedMap over generated minified programs; second reference recognises the one known deviation for index sections; Miri + ASan repeats",
+        "level_text": "exploration: 40k (quick) / 1.5M (thorough) generated programs x up to 60 positions x 21 candidate names; the crate's answer must equal the reference walk (identifier prefix of the first whitespace-delimited word at the token's UTF-16 column; first token equal to the name whose predecessor is 'function' gives its original name; nothing for non-identifiers), must never panic, and the same map as the only section (0,0) of an index must answer identically. Index maps with sections at non-zero offsets are checked against the same reference applied inside the section. KNOWN FINDING: index sections with non-zero offset are read at section-relative coordinates (recognised exactly by a deviant reference).",
+        "design_ref": "DESIGN.md section 5, C17",
+        "level_note": "trusted: reference resolver and identifier tables in harness/src/props/c17.rs.",
+    },
 }
